@@ -166,7 +166,7 @@ V("det-benign-set-membership", ["C12"], D, "benign",
 V("det-benign-set-to-set", ["C12"], D, "benign",
   (IRI, "    active_tables: dict[str, npt.NDArray[np.float64]] = {}\n", "    _referenced = set()\n    for _n in active_table_names:\n        _referenced.add(_n)\n    active_tables: dict[str, npt.NDArray[np.float64]] = {}\n"))
 
-S = ["ORDER-TAINT", "HISTORY-ID", "SIG-COMPLETE", "SIG-INJECTIVE", "NAME-KEY", "DIGEST-WIDTH"]
+S = ["ORDER-TAINT", "HISTORY-ID", "SIG-COMPLETE", "SIG-INJECTIVE", "NAME-KEY", "DIGEST-WIDTH", "JIT-FLOW", "SIG-RENUMBERING"]
 V("sig-drop-version", ["C13"], S, "fire", (NAM, "        str(ffcx.__version__),\n", ""))
 V("sig-drop-tag", ["C13"], S, "fire", (NAM, "        kind,\n        tag,\n    ]", "        kind,\n    ]"))
 V("sig-drop-header-hash", ["C13"], S, "fire", (NAM, "        ffcx.codegeneration.get_signature(),\n", ""))
@@ -230,7 +230,7 @@ V("cli-filter-removed", ["C20"], CL, "fire",
   (MAINP, "    priority_options = {k: v for k, v in xargs.__dict__.items() if v is not None}", "    priority_options = dict(xargs.__dict__)"))
 V("cli-extern-without-definition", ["C20", "C19"], CL, "fire",
   ("ffcx/codegeneration/C/form_template.py", "// Alias name\nufcx_form* {name_from_uflfile} = &{factory_name};\n", "// Alias name\n"))
-V("cli-alias-from-index", ["C20"], CL, "fire",
+V("cli-alias-from-index", ["C20"], CL + ["FORM-IR-SOURCES"], "fire",
   (REP, "    form_name = object_names.get(id(form_data.original_form), form_id)", "    form_name = object_names.get(id(form_data), form_id)"))
 V("cli-header-name-mismatch", ["C20"], CL, "fire",
   ("ffcx/codegeneration/C/expression.py", "        factory_name=factory_name, name_from_uflfile=ir.name_from_uflfile\n    )", "        factory_name=factory_name, name_from_uflfile=ir.expression.name\n    )"))
@@ -258,11 +258,11 @@ V("desc-type-order", ["C06"], DS, "fire",
   (COM, "    for itg_type in (\"cell\", \"exterior_facet\", \"interior_facet\", \"vertex\", \"ridge\"):", "    for itg_type in (\"cell\", \"interior_facet\", \"exterior_facet\", \"vertex\", \"ridge\"):"))
 V("desc-otherwise-minus-two", ["C06"], DS, "fire", (REP, "sid if sid != \"otherwise\" else -1 for sid in itg_data.subdomain_id", "sid if sid != \"otherwise\" else -2 for sid in itg_data.subdomain_id"))
 V("desc-negative-ids-accepted", ["C06", "C19"], DS + ["REJECTIONS", "SUBDOMAIN-IDS"], "fire",
-  (REP, "        if any(sid != \"otherwise\" and sid < 0 for sid in itg_data.subdomain_id):\n            raise ValueError(\"Integral subdomain IDs must be non-negative.\")\n", ""))
+  (REP, "        if any(sid != \"otherwise\" and not 0 <= sid < 2**31 for sid in itg_data.subdomain_id):\n            raise ValueError(\"Integral subdomain IDs must be non-negative and fit in a C int.\")\n", ""))
 V("desc-minus-one-accepted", ["C06", "C19"], ["SUBDOMAIN-IDS"], "fire",
-  (REP, "        if any(sid != \"otherwise\" and sid < 0 for sid in itg_data.subdomain_id):", "        if any(sid != \"otherwise\" and sid < -1 for sid in itg_data.subdomain_id):"))
+  (REP, "        if any(sid != \"otherwise\" and not 0 <= sid < 2**31 for sid in itg_data.subdomain_id):", "        if any(sid != \"otherwise\" and not -1 <= sid < 2**31 for sid in itg_data.subdomain_id):"))
 V("desc-ids-benign-guard-form", ["C06", "C19"], ["SUBDOMAIN-IDS", "EVERYWHERE-ID"], "benign",
-  (REP, "        if any(sid != \"otherwise\" and sid < 0 for sid in itg_data.subdomain_id):", "        user_ids = [sid for sid in itg_data.subdomain_id if sid != \"otherwise\"]\n        if user_ids and min(user_ids) < 0:"))
+  (REP, "        if any(sid != \"otherwise\" and not 0 <= sid < 2**31 for sid in itg_data.subdomain_id):", "        user_ids = [sid for sid in itg_data.subdomain_id if sid != \"otherwise\"]\n        if user_ids and not (0 <= min(user_ids) and max(user_ids) < 2**31):"))
 V("desc-names-not-repeated", ["C06"], ["EVERYWHERE-ID"], "fire", (REP, "        for _ in range(len(subdomain_ids)):\n            iname = integral_names[(form_id, itg_index)]", "        for _ in range(1):\n            iname = integral_names[(form_id, itg_index)]"))
 V("desc-template-missing-field", ["C06", "C20"], DS, "fire", ("ffcx/codegeneration/C/form_template.py", "  .rank = {rank},\n", ""))
 V("desc-numba-missing-attr", ["C06", "C18"], DS, "fire", ("ffcx/codegeneration/numba/form_template.py", "  num_constants = {num_constants}\n", ""))
@@ -477,8 +477,8 @@ V("optgate-diag-filter-removed", ["C10"], OG, "fire", (
 V("optgate-diag-filter-unguarded", ["C10"], OG, "fire", (
   "ffcx/ir/integral.py", "            TensorPart.from_str(p[\"part\"]) == TensorPart.diagonal\n            and len(blockmap) == 2\n            and blockmap[0] != blockmap[1]", "            TensorPart.from_str(p[\"part\"]) == TensorPart.diagonal\n            and blockmap[0] != blockmap[1]"))
 V("optgate-tf-name-unscoped", ["C10", "C19"], OG, "fire", (ET, "                        name=f\"FE_TF{tensor_n}_Q{quadrature_rule.id()}\",", "                        name=f\"FE_TF{tensor_n}\","))
-V("optgate-tf-reuse-by-shape", ["C10"], OG, "fire", (ET, "                    if tensor_factor.values.shape == sub_tbl.shape and np.allclose(\n                        tensor_factor.values, sub_tbl\n                    ):", "                    if tensor_factor.values.shape == sub_tbl.shape:"))
-V("optgate-tf-reuse-equal-tables", ["C10"], OG, "benign", (ET, "                    if tensor_factor.values.shape == sub_tbl.shape and np.allclose(\n                        tensor_factor.values, sub_tbl\n                    ):", "                    if equal_tables(tensor_factor.values, sub_tbl):"))
+V("optgate-tf-reuse-by-shape", ["C10"], OG, "fire", (ET, "                    if tensor_factor.values.shape == sub_tbl.shape and np.allclose(\n                        tensor_factor.values, sub_tbl, rtol=rtol, atol=atol\n                    ):", "                    if tensor_factor.values.shape == sub_tbl.shape:"))
+V("optgate-tf-reuse-equal-tables", ["C10"], OG, "benign", (ET, "                    if tensor_factor.values.shape == sub_tbl.shape and np.allclose(\n                        tensor_factor.values, sub_tbl, rtol=rtol, atol=atol\n                    ):", "                    if equal_tables(tensor_factor.values, sub_tbl, rtol=rtol, atol=atol):"))
 
 V("permaxis-benign-local-alias", ["C03", "C08"], ["PERM-AXIS", "GEN-TABLES"], "benign",
   (ET, "                    if cell_type == \"tetrahedron\":\n                        new_table = []\n                        for rot in range(3):", "                    if cell_type == \"tetrahedron\":\n                        pq = permute_quadrature_triangle\n                        new_table = []\n                        for rot in range(3):"),
@@ -569,9 +569,9 @@ V("r4-quad-family-last-wins", ["C11", "C01"], ["QUAD-FAMILY"], "fire", (EI, "   
 V("r4-quad-family-degree-plus-one", ["C11", "C01"], ["QUAD-FAMILY"], "fire", (EI, "            celltype, degree, rule=basix.quadrature.string_to_type(rule), polyset_type=polyset_type", "            celltype, degree + 1, rule=basix.quadrature.string_to_type(rule), polyset_type=polyset_type"))
 V("r4-dtype-conditional-true-branch", ["C09"], ["DTYPE-MERGE"], "fire", (IG, "    return L.merge_dtypes(dtypes)\n\n\nclass IntegralGenerator", "    if isinstance(v, ufl.classes.Conditional):\n        return dtypes[1]\n    return L.merge_dtypes(dtypes)\n\n\nclass IntegralGenerator"))
 V("r4-dtype-benign-skip-condition", ["C09"], ["DTYPE-MERGE"], "benign", (IG, "    return L.merge_dtypes(dtypes)\n\n\nclass IntegralGenerator", "    if isinstance(v, ufl.classes.Conditional):\n        return L.merge_dtypes(dtypes[1:])\n    return L.merge_dtypes(dtypes)\n\n\nclass IntegralGenerator"))
-V("r4-math-first-arg-only", ["C09"], ["MATH-ARGTYPE"], "fire", (CF, "            if c.args[0].dtype == L.DataType.REAL and not any(\n                getattr(arg, \"dtype\", None) == L.DataType.SCALAR for arg in c.args[1:]\n            ):", "            if c.args[0].dtype == L.DataType.REAL:"))
-V("r4-geom-entity-facet-dropped", ["C02", "C04"], ["GEOM-ENTITY"], "fire", (ACC, "            return table[facet * num_facet_edges + mt.component[0]][mt.component[1]]", "            return table[mt.component[0]][mt.component[1]]"))
-V("r4-geom-entity-unscaled", ["C02", "C04"], ["GEOM-ENTITY"], "fire", (ACC, "            return table[facet * num_facet_edges + mt.component[0]][mt.component[1]]", "            return table[facet + mt.component[0]][mt.component[1]]"))
+V("r4-math-first-arg-only", ["C09"], ["MATH-ARGTYPE"], "fire", (CF, "            if not any(getattr(arg, \"dtype\", None) == L.DataType.SCALAR for arg in c.args):", "            if c.args[0].dtype == L.DataType.REAL:"))
+V("r4-geom-entity-facet-dropped", ["C02", "C04"], ["GEOM-ACCESS"], "fire", (ACC, "            return table[facet * num_facet_edges + mt.component[0]][mt.component[1]]", "            return table[mt.component[0]][mt.component[1]]"))
+V("r4-geom-entity-unscaled", ["C02", "C04"], ["GEOM-ACCESS"], "fire", (ACC, "            return table[facet * num_facet_edges + mt.component[0]][mt.component[1]]", "            return table[facet + mt.component[0]][mt.component[1]]"))
 V("r4-geom-maps-expression-name", ["C04", "C19"], ["GEOM-TABLE-MAPS"], "fire", ("ffcx/codegeneration/expression_generator.py", "            ufl.geometry.FacetEdgeVectors: \"facet_edge_vertices\",", "            ufl.geometry.FacetEdgeVectors: \"facet_edge_vectors\","))
 V("r4-geom-maps-orientation-missing", ["C04", "C19"], ["GEOM-TABLE-MAPS"], "fire", ("ffcx/codegeneration/expression_generator.py", "            ufl.geometry.FacetOrientation: \"facet_orientation\",\n", ""))
 V("r4-dispatch-jacobian-pass-through", ["C01", "C02", "C03"], ["TERMINAL-DISPATCH"], "fire", (DEFP2, "            ufl.geometry.Jacobian: self._define_coordinate_dofs_lincomb,", "            ufl.geometry.Jacobian: self.pass_through,"))
@@ -856,3 +856,13 @@ V("ek-first-factor-for-all-components", ["C04"], EK, "fire", (EGF, "            
                                                                "            for fi_ci in blockdata.factor_indices_comp_indices:\n                f = self.get_var(F.nodes[blockdata.factor_indices_comp_indices[0][0]][\"expression\"])\n                Brhs = L.float_product([f] + arg_factors)\n                indices"))
 V("ek-benign", ["C04"], EK, "benign", (EGF, "        all_preparts = []\n        all_quadparts = []\n\n        preparts, quadparts = self.generate_quadrature_loop()\n        all_preparts += preparts\n        all_quadparts += quadparts\n",
                                         "        all_preparts, all_quadparts = self.generate_quadrature_loop()\n        all_preparts, all_quadparts = list(all_preparts), list(all_quadparts)\n"))
+
+# ---- GEOM-ACCESS: accessors and table writers interpreted together
+V("ga-normal-wrong-side", ["C02"], ["GEOM-ACCESS"], "fire", (ACC, "            table = L.Symbol(f\"{cellname}_reference_normals\", dtype=L.DataType.REAL)\n            facet = self.symbols.entity(\"facet\", mt.restriction)", "            table = L.Symbol(f\"{cellname}_reference_normals\", dtype=L.DataType.REAL)\n            facet = self.symbols.entity(\"facet\", None)"))
+V("ga-orientation-int", ["C19", "C01", "C02", "C17"], ["GEOM-ACCESS"], "fire", (ACC, "        table = L.Symbol(f\"{cellname}_facet_orientation\", dtype=L.DataType.REAL)", "        table = L.Symbol(f\"{cellname}_facet_orientation\", dtype=L.DataType.INT)"))
+V("ga-dispatch-swapped", ["C02", "C04", "C19"], ["GEOM-ACCESS"], "fire", (ACC, "            ufl.geometry.CellFacetJacobian: self.cell_facet_jacobian,", "            ufl.geometry.CellFacetJacobian: self.cell_ridge_jacobian,"))
+V("ga-minus-side-offset", ["C02"], ["GEOM-ACCESS"], "fire", ("ffcx/codegeneration/symbols.py", "            offset = num_scalar_dofs * 3\n", "            offset = num_scalar_dofs * 2\n"))
+V("ga-facet-jacobian-transposed", ["C02", "C04"], ["GEOM-ACCESS"], "fire", (ACC, "            return table[facet][mt.component[0]][mt.component[1]]", "            return table[facet][mt.component[1]][mt.component[0]]"))
+V("ga-writer-edge-vector-sign", ["C02", "C04", "C01"], ["GEOM-ACCESS"], "fire", ("ffcx/codegeneration/geometry.py", "    edge_vectors = [geometry[j] - geometry[i] for i, j in topology[1]]", "    edge_vectors = [geometry[i] - geometry[j] for i, j in topology[1]]"))
+V("ga-table-name-typo", ["C19", "C02", "C04"], ["GEOM-ACCESS"], "fire", (ACC, "            table = L.Symbol(f\"{cellname}_reference_normals\", dtype=L.DataType.REAL)", "            table = L.Symbol(f\"{cellname}_reference_normal\", dtype=L.DataType.REAL)"))
+V("ga-benign-local-name", ["C02", "C04"], ["GEOM-ACCESS"], "benign", (ACC, "            return table[facet * num_facet_edges + mt.component[0]][mt.component[1]]", "            row = facet * num_facet_edges + mt.component[0]\n            return table[row][mt.component[1]]"))
